@@ -69,6 +69,17 @@ theorem tr_setTaint (w : String) : Tr false (GilVerif.Model.C11.setTaint w) (fun
   unfold GilVerif.Model.C11.setTaint
   cases s.taint <;> exact ⟨fun h => absurd h (by decide), trivial⟩
 
+theorem tr_taintIf (c : Bool) (w : String) : Tr false (taintIf c w) (fun _ => True) := by
+  unfold taintIf; split
+  · exact tr_setTaint w
+  · exact tr_pure trivial
+
+theorem tr_ite {α} {t : Bool} {c : Prop} [Decidable c] {a b : M α} {Q : α → Prop} (ha : c → Tr t a Q) (hb : ¬ c → Tr t b Q) :
+    Tr t (if c then a else b) Q := by
+  split
+  · exact ha ‹_›
+  · exact hb ‹_›
+
 theorem tr_fuelHere {t : Bool} : Tr t fuelHere (fun _ => True) := by
   intro s; show GoodT t _ s (Except.ok (s.rest.length + 1, s)); exact ⟨fun _ => rfl, trivial⟩
 
